@@ -54,7 +54,7 @@ struct L07 : Listener {
                 }
             }
             if (dev.rfind("exists", 0) == 0) reasons.insert("invalid:name-exists");
-            if (dev == "ragged" || dev == "altname") eitherWay = true;
+            if (dev == "ragged" || dev == "altname" || dev == "altname-channels" || dev == "dupnew") eitherWay = true;
             if (!isP && !in.gapIdx.empty()) for (size_t f = 0; f < in.o().data().nbFrames(); ++f) if (in.o().data().frame(f).analogs().nbSubframes() != s.nSub) gapcol = true;   // KF-GAPCOL: frames left empty by an indexed add beyond the end
             // names duplicated inside the new columns, or reuse of a vector whose names now exist
             if (dev == "reuse-caller-vector") eitherWay = true;
